@@ -25,7 +25,9 @@ class SpendCase:
         key = btc.pubkey_create(sec, compressed=True); key2 = btc.pubkey_create(sec2)
         xk, _ = btc.xonly_pubkey(sec)
         signer = sec2 if mut == "wrong-key" else sec
-        amount = rng.randrange(10000, 10**9)
+        # amounts across the 32-bit boundaries up to the money supply (the amount is a 64-bit field committed to by segwit / taproot digests)
+        amount = rng.choice([rng.randrange(10000, 10**9), rng.randrange(10000, 10**9), 2**31 - 1, 2**31, 2**31 + 1, 2**32 - 1, 2**32, 2**32 + rng.randrange(1, 10**6),
+                             50 * 10**8, rng.randrange(2**32, 21 * 10**14), 21 * 10**14])
         if typ.startswith("p2tr"):
             n_in, nin = 1, 0
         self.annex = None
@@ -250,6 +252,21 @@ def targeted_jobs(chk, cmp=CMP_SPEND):
             r, sv = btc.ecdsa_sign(sec, btc.sighash_bip143(c.tx, 0, code, amt, 1), high_s=True)
             c.tx.witness[0] = [btc.der_encode(r, sv) + b"\x01", key]
             add("high-s:p2wpkh:%d:%s" % (rep, "lows" if "LOW_S" in fl else "nolows"), c.tx, c.funding, fl)
+    # the argument of an executed OP_IF / OP_NOTIF: in tapscript it must be empty or 01 whatever the flags say; in witness v0 only with MINIMALIF
+    for arg in (b"", b"\x01", b"\x02", b"\x01\x00", b"\x00"):
+        for fl in (STANDARD, [f for f in STANDARD if f != "MINIMALIF"]):
+            for opn in ("IF", "NOTIF"):
+                leaf_script = O(opn) + b"\x51" + O("ELSE") + b"\x51" + O("ENDIF")
+                internal = btc.xonly_pubkey(rng.randrange(1, btc.N))[0]
+                spk0, info = btc.p2tr(internal, [(leaf_script, 0xc0)])
+                c = SpendCase(rng, "p2tr-key", "valid", 1, 0, 0)
+                c.funding.vout[0] = btc.TxOut(c.funding.vout[0].amount, spk0); c.tx.vin[0].prev_txid = c.funding.txid()
+                c.tx.witness[0] = [arg, leaf_script, info["leaves"][0]["control_block"]]
+                add("minimalif:tapscript:%s:%s:%s" % (opn, arg.hex() or "e", "std" if "MINIMALIF" in fl else "nomif"), c.tx, c.funding, fl)
+                c = SpendCase(rng, "p2wsh", "valid", 1, 0, 0)
+                c.funding.vout[0] = btc.TxOut(c.funding.vout[0].amount, btc.p2wsh(leaf_script)[0]); c.tx.vin[0].prev_txid = c.funding.txid()
+                c.tx.witness[0] = [arg, leaf_script]
+                add("minimalif:p2wsh:%s:%s:%s" % (opn, arg.hex() or "e", "std" if "MINIMALIF" in fl else "nomif"), c.tx, c.funding, fl)
     # a witness item beyond 520 bytes (consensus: PUSH_SIZE)
     for n in (520, 521):
         ws = O("DROP") + b"\x51"
